@@ -85,6 +85,13 @@ def cases():
     one('dead-elseif', '  if (flag) then\n    s = 1\n  else if (.false.) then\n    s = 2\n  else if (s > 3) then\n    s = 3\n  else\n    s = 4\n  end if', DC, 'deadcode')
     one('dead-symbolic-tautology', '  if (s + 1 > s) then\n    b(1) = 1\n  else\n    b(1) = 2\n  end if\n  if (n == n) b(2) = 3\n  if (s /= s) b(3) = 4', DC, 'deadcode')
     one('dead-undecidable', '  if (s > n) then\n    b(1) = 1\n  end if\n  if (s == n) then\n    b(2) = 2\n  else\n    b(2) = 3\n  end if\n  if (b(1) /= s) b(3) = 5', DC, 'deadcode')
+    # SELECT CASE with constant / run-time selectors: literal lists, ranges (closed, open), named constants, no match, no default
+    one('dead-select-const-literal-list', '  select case (2)\n  case (1)\n    s = 10\n  case (5, 2)\n    s = 20\n  case default\n    s = 30\n  end select', DC, 'deadcode')
+    one('dead-select-const-in-range', '  select case (4)\n  case (1)\n    s = 10\n  case (3:6)\n    s = 20\n  case default\n    s = 30\n  end select\n  select case (7)\n  case (:2)\n    b(1) = 1\n  case (5:)\n    b(1) = 2\n  case default\n    b(1) = 3\n  end select', DC, 'deadcode')
+    one('dead-select-const-named-constant', '  select case (3)\n  case (1)\n    s = 10\n  case (p)\n    s = 20\n  case default\n    s = 30\n  end select\n  select case (p)\n  case (2:4)\n    b(2) = 1\n  end select', DC, 'deadcode')
+    one('dead-select-const-no-match', '  select case (9)\n  case (1)\n    s = 10\n  case (2:3)\n    s = 20\n  case default\n    s = 30\n  end select\n  select case (9)\n  case (1, 2)\n    b(1) = 5\n  end select', DC, 'deadcode')
+    one('dead-select-runtime-selector', '  select case (s)\n  case (:0)\n    b(1) = 1\n  case (1, 3)\n    b(1) = 2\n  case (4:6)\n    b(1) = 3\n  case default\n    b(1) = 4\n  end select', DC, 'deadcode')
+    one('dead-select-after-constprop', '  c = 4\n  d = c + 1\n  select case (d)\n  case (1:3)\n    s = 10\n  case (5:8)\n    s = 20\n  case default\n    s = 30\n  end select', CP + DC, 'deadcode')
     one('dead-nested', '  if (flag) then\n    if (.false.) then\n      s = 1\n    end if\n    s = s + 2\n  else\n    if (.true.) then\n      s = s*3\n    else\n      s = 0\n    end if\n  end if', DC, 'deadcode')
     one('unused-vars', '  t = 2.0\n  tmp(1) = t\n  a(1) = tmp(1) + a(2)', (('unused-all', unused_vars), ('unused-arrays', unused_arrays)), 'unused')
     # unused dummy arguments with matching call arguments
